@@ -728,29 +728,31 @@ class UFuncElemwise(MapPartitions):
         return make_meta(meta)
 
     def _divisions(self):
-        if (
-            self.transform_divisions
-            and isinstance(self._dfs[0], Index)
-            and len(self._dfs) == 1
+        if not is_index_like(self._meta):
+            # the index of the operands is not touched
+            return self._dfs[0].divisions
+        frame, func = self._dfs[0], self.func
+        binops = {np.add: Add, np.subtract: Sub, np.multiply: Mul, np.true_divide: Div}
+        if not self.transform_divisions or self.kwargs:
+            pass
+        elif len(self.args) == 2 and any(func is ufunc for ufunc in binops):
+            return binops[func](*self.args)._divisions()
+        elif (
+            len(self.args) == 1
+            and frame.known_divisions
+            and any(func is ufunc for ufunc in _INCREASING_UFUNCS)
         ):
-            try:
-                divisions = self.func(
-                    *[
-                        pd.Index(arg.divisions) if arg is self._dfs[0] else arg
-                        for arg in self.args
-                    ],
-                    **self.kwargs,
-                )
-                if isinstance(divisions, pd.Index):
-                    divisions = methods.tolist(divisions)
-            except Exception:
-                pass
-            else:
-                if not valid_divisions(divisions):
-                    divisions = [None] * (self._dfs[0].npartitions + 1)
-                return divisions
+            divisions = methods.tolist(func(pd.Index(frame.divisions)))
+            if valid_divisions(divisions):
+                return tuple(divisions)
+        return (None,) * (frame.npartitions + 1)
 
-        return self._dfs[0].divisions
+
+# Only functions that are strictly increasing wherever they are defined map the
+# divisions of an index to the divisions of the result
+_INCREASING_UFUNCS = [np.positive, np.sqrt, np.cbrt, np.sinh, np.arcsinh, np.arctan]
+_INCREASING_UFUNCS += [np.exp, np.exp2, np.expm1, np.log, np.log2, np.log10, np.log1p]
+_INCREASING_UFUNCS += [np.deg2rad, np.rad2deg, np.degrees, np.radians]
 
 
 class MapOverlapAlign(Expr):
@@ -2577,21 +2579,36 @@ class Binop(Elemwise):
         return [self.left, self.right]
 
     def _divisions(self):
-        if is_index_like(self._meta):
-            left_divisions = (
-                pd.Series(self.left.divisions)
-                if isinstance(self.left, Expr)
-                else self.left
-            )
-            right_divisions = (
-                pd.Series(self.right.divisions)
-                if isinstance(self.right, Expr)
-                else self.right
-            )
-
-            return tuple(self.operation(left_divisions, right_divisions))
-        else:
+        if not is_index_like(self._meta):
             return super()._divisions()
+        # The divisions of an index operand only bound the partitions of the result
+        # if the operation is strictly increasing in that operand
+        operands = [self.left, self.right]
+        indexes = [op for op in operands if isinstance(op, Expr)]
+        index_first = isinstance(self.left, Expr)
+        other = self.right if index_first else self.left
+        positive = isinstance(other, numbers.Real) and other > 0
+        increasing = {
+            operator.add: not isinstance(other, str),
+            operator.sub: index_first and not isinstance(other, Expr),
+            operator.mul: positive,
+            operator.truediv: index_first and positive,
+        }
+        if increasing.get(self.operation) and all(
+            is_index_like(index._meta)
+            and index.known_divisions
+            and not isinstance(index.divisions[0], str)
+            for index in indexes
+        ):
+            divisions = self.operation(
+                *[
+                    pd.Series(op.divisions) if isinstance(op, Expr) else op
+                    for op in operands
+                ]
+            )
+            if valid_divisions(divisions := tuple(divisions)):
+                return divisions
+        return (None,) * (indexes[0].npartitions + 1)
 
 
 class Add(Binop):
